@@ -323,66 +323,118 @@ func ruleVD6(c *Ctx) {
 		return
 	}
 	fn := c.Name(re)
-	negTomb := func(keyCanon string) map[edge]bool { return c.lookupEdges(re, "Tombstones", keyCanon, false) }
+	rm := c.replay()
+	effectFns := []*ssa.Function{re}
+	if rm != nil {
+		effectFns = rm.EffectFns
+	}
 	// inserts into Tasks
-	nIns := 0
-	eachInstr(re, func(r instrRef) {
-		mu, ok := r.In.(*ssa.MapUpdate)
-		if !ok {
-			return
-		}
-		_, field, ok := fieldLoad(mu.Map)
-		if !ok {
-			// nested: Deps[from][to]
-			if lk, ok2 := resolve(mu.Map).(*ssa.Lookup); ok2 {
-				if _, f2, ok3 := fieldLoad(lk.X); ok3 && f2 == "Deps" {
-					nIns++
-					kf, kt := c.canon(lk.Index), c.canon(mu.Key)
-					okG := mustPassEdges(re, r.Blk, negTomb(kf)) && mustPassEdges(re, r.Blk, negTomb(kt))
-					c.check(okG, fn, fmt.Sprintf("insert Deps[from][to]#%d", nIns), c.Pos(mu.Pos()),
-						"edge insertion dominated by negative tombstone lookups of both ends", "an edge naming a tombstoned id can be inserted: a pruned id's edges come back and block its dependants")
-				}
+	nIns, nDel := 0, 0
+	for _, ef := range effectFns {
+		ef := ef
+		negTomb := func(keyCanon string) map[edge]bool { return c.lookupEdges(ef, "Tombstones", keyCanon, false) }
+		eachInstr(ef, func(r instrRef) {
+			mu, ok := r.In.(*ssa.MapUpdate)
+			if !ok {
+				return
 			}
-			return
-		}
-		switch field {
-		case "Tasks":
-			nIns++
-			okG := mustPassEdges(re, r.Blk, negTomb(c.canon(mu.Key)))
-			c.check(okG, fn, fmt.Sprintf("insert Tasks[id]#%d", nIns), c.Pos(mu.Pos()),
-				"item creation dominated by the negative tombstone lookup of its id", "a create event for a tombstoned id re-inserts the item: a pruned id comes back")
-		case "Deps":
-			// creating the inner map: harmless
-		}
-	})
-	// delete of an edge (unlink) — guarded like link
-	nDel := 0
-	for _, call := range callsNamed(re, "builtin delete") {
-		a := call.Common().Args
-		if lk, ok := resolve(a[0]).(*ssa.Lookup); ok {
-			if _, f2, ok := fieldLoad(lk.X); ok && f2 == "Deps" {
-				nDel++
-				okG := mustPassEdges(re, call.Block(), negTomb(c.canon(lk.Index))) && mustPassEdges(re, call.Block(), negTomb(c.canon(a[1])))
-				c.check(okG, fn, fmt.Sprintf("delete Deps[from][to]#%d", nDel), c.Pos(call.Pos()), "edge removal dominated by negative tombstone lookups of both ends", "unlink of a tombstoned id is applied")
+			_, field, ok := fieldLoad(mu.Map)
+			if !ok {
+				// nested: Deps[from][to]
+				if lk, ok2 := resolve(mu.Map).(*ssa.Lookup); ok2 {
+					if _, f2, ok3 := fieldLoad(lk.X); ok3 && f2 == "Deps" {
+						nIns++
+						kf, kt := c.canon(lk.Index), c.canon(mu.Key)
+						okG := mustPassEdges(ef, r.Blk, negTomb(kf)) && mustPassEdges(ef, r.Blk, negTomb(kt))
+						c.check(okG, fn, fmt.Sprintf("insert Deps[from][to]#%d", nIns), c.Pos(mu.Pos()),
+							"edge insertion dominated by negative tombstone lookups of both ends", "an edge naming a tombstoned id can be inserted: a pruned id's edges come back and block its dependants")
+					}
+				}
+				return
+			}
+			switch field {
+			case "Tasks":
+				nIns++
+				okG := mustPassEdges(ef, r.Blk, negTomb(c.canon(mu.Key)))
+				c.check(okG, fn, fmt.Sprintf("insert Tasks[id]#%d", nIns), c.Pos(mu.Pos()),
+					"item creation dominated by the negative tombstone lookup of its id", "a create event for a tombstoned id re-inserts the item: a pruned id comes back")
+			case "Deps":
+				// creating the inner map: harmless
+			}
+		})
+		// delete of an edge (unlink) — guarded like link
+		for _, call := range callsNamed(ef, "builtin delete") {
+			a := call.Common().Args
+			if lk, ok := resolve(a[0]).(*ssa.Lookup); ok {
+				if _, f2, ok := fieldLoad(lk.X); ok && f2 == "Deps" {
+					nDel++
+					okG := mustPassEdges(ef, call.Block(), negTomb(c.canon(lk.Index))) && mustPassEdges(ef, call.Block(), negTomb(c.canon(a[1])))
+					c.check(okG, fn, fmt.Sprintf("delete Deps[from][to]#%d", nDel), c.Pos(call.Pos()), "edge removal dominated by negative tombstone lookups of both ends", "unlink of a tombstoned id is applied")
+				}
 			}
 		}
 	}
 	// tombstone case: applyTombstone on every non-error path through the case
-	caseEdges := edgesWhere(re, func(a Atom, holds bool) bool {
-		if a.Kind != "const" || !holds || a.C.Value == nil || a.C.Value.Kind() != constant.String || constant.StringVal(a.C.Value) != "tombstone" {
+	// the tombstone case may hand the event to a handler: a helper "always applies" when each of its non-failing
+	// returns is dominated by a call to applyTombstone (or to another always-applying helper)
+	sw := re
+	if rm != nil {
+		sw = rm.Switch
+	}
+	appliesMemo := map[*ssa.Function]int{}
+	var applies func(h *ssa.Function, d int) bool
+	applyBlocksOf := func(g *ssa.Function, d int) map[*ssa.BasicBlock]bool {
+		out := map[*ssa.BasicBlock]bool{}
+		for _, call := range callsIn(g) {
+			cal := call.Common().StaticCallee()
+			if cal == nil {
+				continue
+			}
+			if cal == at || (rm != nil && rm.handler[cal] && applies(cal, d+1)) {
+				out[call.Block()] = true
+			}
+		}
+		return out
+	}
+	applies = func(h *ssa.Function, d int) bool {
+		if v, ok := appliesMemo[h]; ok {
+			return v == 1
+		}
+		appliesMemo[h] = 2
+		if d > 4 || h.Blocks == nil {
+			return false
+		}
+		ab := applyBlocksOf(h, d)
+		if len(ab) == 0 {
+			return false
+		}
+		for _, r := range c.nonFailingReturns(h) {
+			if ab[r.Block()] {
+				continue
+			}
+			if reach(h.Blocks[0], nil, ab)[r.Block()] {
+				return false
+			}
+		}
+		appliesMemo[h] = 1
+		return true
+	}
+	caseEdges := edgesWhere(sw, func(a Atom, holds bool) bool {
+		if a.Kind != "const" || !holds || len(a.Env) > 0 || a.C.Value == nil || a.C.Value.Kind() != constant.String || constant.StringVal(a.C.Value) != "tombstone" {
 			return false
 		}
 		_, n, ok := fieldLoad(a.X)
 		return ok && n == "Type"
 	})
-	calls := callsTo(re, at)
-	if len(caseEdges) == 0 || len(calls) == 0 {
+	var calls []ssa.CallInstruction
+	for _, ef := range effectFns {
+		calls = append(calls, callsTo(ef, at)...)
+	}
+	re = sw
+	applyBlocks := applyBlocksOf(sw, 0)
+	if len(caseEdges) == 0 || len(calls) == 0 || len(applyBlocks) == 0 {
 		c.bad(fn, "case \"tombstone\"", c.FnPos(re), "replay has no tombstone case that applies tombstones")
 	} else {
-		applyBlocks := map[*ssa.BasicBlock]bool{}
-		for _, cl := range calls {
-			applyBlocks[cl.Block()] = true
-		}
 		// from the case entry, without entering an apply block, no block outside the case body may be reachable
 		// except error returns: i.e. we must not reach the loop header (next iteration) or a success return.
 		bad := ""
